@@ -5,7 +5,7 @@
    cursor [cur], history search text [hst], validation state [vst], the History
    object [store] = (_loaded_strings newest first [ls], backend storage oldest
    first [sto], _loaded), the loader task.  [text s] is the displayed entry,
-   [get_strings] is History.get_strings().  [step_state c s o] is one
+   [get_strings] is what History.get_strings() returns (it loads first).  [step_state c s o] is one
    operation of a session under configuration [c] (validate_while_typing,
    accept handler's keep_text, validator = ANY function text -> cursor ->
    option position), [steps] a finite sequence of them.
@@ -49,23 +49,24 @@ Theorem C14_index_inv : forall c ops s,
 Proof. exact steps_inv. Qed.
 Print Assumptions C14_index_inv.
 
-(* Without prefix search, k >= 1 entries back and k forward again (k not
+(* Without prefix search, k entries back and k forward again (0 <= k not
    exceeding the entries available): same entry, same text, same lines. *)
 Theorem C14_back_forth : forall c s k,
-  Inv s -> ehs s = false -> 1 <= k <= wi s ->
+  Inv s -> ehs s = false -> 0 <= k <= wi s ->
   let s1 := step_state c s (OBack k) in
   let s2 := step_state c s1 (OFwd k) in
   wi s1 = wi s - k /\ wi s2 = wi s /\ wl s2 = wl s /\ text s2 = text s.
 Proof. exact back_forth. Qed.
 Print Assumptions C14_back_forth.
 
-(* ... but not for k = 0 (finding C14-F2: a count of 0, `Esc 0 Up`, walks to
-   the oldest entry, and forward 0 to the newest). *)
-Theorem C14_back_forth_zero_refuted :
+(* ... which the functions as they stood before the count fix did not satisfy
+   for k = 0 (finding C14-F2, repaired in /repo: a count of 0 walked to the
+   oldest entry, and forward 0 to the newest). *)
+Theorem C14_back_forth_zero_pinned_refuted :
   exists c s, Inv s /\ ehs s = false /\ hst s = None /\ 0 <= 0 <= wi s /\
-    wi (step_state c (step_state c s (OBack 0)) (OFwd 0)) <> wi s.
-Proof. exact back_forth_zero_refuted. Qed.
-Print Assumptions C14_back_forth_zero_refuted.
+    wi (history_forward_pinned c (history_backward_pinned c s 0) 0) <> wi s.
+Proof. exact back_forth_zero_pinned_refuted. Qed.
+Print Assumptions C14_back_forth_zero_pinned_refuted.
 
 (* With prefix search every entry reached by an up/down step (any count)
    starts with the prefix, which is the captured search text or, at the first
@@ -115,47 +116,52 @@ Theorem C14_accept_valid : forall c s,
 Proof. exact accept_valid. Qed.
 Print Assumptions C14_accept_valid.
 
-(* append_to_history appends the text exactly once to get_strings() and to the
-   storage, unless [skip_append] ... *)
-Theorem C14_append_once : forall s,
-  let h := store s in let h' := store (append_to_history s) in
-  (skip_append h (text s) = true -> h' = h) /\
-  (skip_append h (text s) = false ->
-     get_strings h' = get_strings h ++ [text s] /\ sto h' = sto h ++ [text s] /\ loaded h' = loaded h).
-Proof.
-  intros s h h'. unfold h', h. rewrite append_to_history_store.
-  destruct (skip_append _ _); split; intros H; try discriminate; auto.
-Qed.
-Print Assumptions C14_append_once.
-
-(* ... which holds exactly when the text is empty or equals the newest entry
-   of get_strings() ... *)
-Theorem C14_append_skip : forall h t,
-  skip_append h t = true <-> t = [] \/ exists r, get_strings h = r ++ [t].
-Proof. exact skip_append_spec. Qed.
-Print Assumptions C14_append_skip.
-
-(* ... and, once the history has been loaded, exactly when it is empty or
-   equals the newest STORED entry.  [Coh] holds in every reachable state. *)
-Theorem C14_append_skip_loaded : forall h t,
-  Coh h -> loaded h = true ->
-  (skip_append h t = true <-> t = [] \/ exists r, sto h = r ++ [t]).
-Proof. exact skip_append_loaded. Qed.
-Print Assumptions C14_append_skip_loaded.
-
+(* [Coh]: the History object is coherent (get_strings() = the stored history
+   once loaded; before that _loaded_strings holds what this session appended).
+   It holds in every reachable state. *)
 Theorem C14_coherent : forall c ops storage e,
   Coh (store (steps c (init storage e) ops)).
 Proof. intros. apply steps_coh. apply coh_init. Qed.
 Print Assumptions C14_coherent.
 
-(* Before the history has been loaded the newest stored entry is not seen:
-   accepting it again stores a duplicate (finding C14-F1). *)
-Theorem C14_accept_dedupe_unloaded_refuted :
-  exists c s, Inv s /\ Coh (store s) /\ verdict_ok c s /\ loaded (store s) = false /\
+(* append_to_history appends the text exactly once to the stored history (and
+   get_strings() shows exactly the stored history afterwards) unless
+   [stored_skip] ... *)
+Theorem C14_append_once : forall s,
+  Coh (store s) ->
+  let S := sto (store s) in
+  let h' := store (append_to_history s) in
+  sto h' = (if stored_skip S (text s) then S else S ++ [text s]) /\ get_strings h' = sto h'.
+Proof. exact append_spec. Qed.
+Print Assumptions C14_append_once.
+
+(* ... which holds exactly when the text is empty or equals the newest stored
+   entry - whether or not the history had been loaded. *)
+Theorem C14_append_skip : forall S t,
+  stored_skip S t = true <-> t = [] \/ exists r, S = r ++ [t].
+Proof. exact stored_skip_spec. Qed.
+Print Assumptions C14_append_skip.
+
+(* Accepting input that passes: the text is returned and the stored history
+   gains it exactly once unless it is empty or equal to the newest entry. *)
+Theorem C14_accept_history : forall c s,
+  Coh (store s) -> verdict_ok c s ->
+  let r := validate_and_handle c s in
+  snd r = Some (text s) /\
+  sto (store (fst r)) =
+    (if stored_skip (sto (store s)) (text s) then sto (store s) else sto (store s) ++ [text s]) /\
+  get_strings (store (fst r)) = sto (store (fst r)).
+Proof. exact accept_history. Qed.
+Print Assumptions C14_accept_history.
+
+(* Before the fix (finding C14-F1, repaired in /repo) the newest stored entry
+   was not seen while the history was not loaded. *)
+Theorem C14_append_dedupe_unloaded_pinned_refuted :
+  exists s, Inv s /\ Coh (store s) /\ loaded (store s) = false /\
     sto (store s) = [text s] /\ text s <> [] /\
-    sto (store (fst (validate_and_handle c s))) = [text s; text s].
-Proof. exact accept_dedupe_unloaded_refuted. Qed.
-Print Assumptions C14_accept_dedupe_unloaded_refuted.
+    sto (store (append_to_history_pinned s)) = [text s; text s].
+Proof. exact append_dedupe_unloaded_pinned_refuted. Qed.
+Print Assumptions C14_append_dedupe_unloaded_pinned_refuted.
 
 (* The next prompt starts from a clean entry list: after reset and population
    the entries are the stored history followed by the new line, the new line
